@@ -550,3 +550,38 @@ def put_volumes_battery(repo):
         problems.append('created trash dirs are not 0700: %r' % modes)
     return {'confirmed': bool(problems), 'problems': problems[:10],
             'stdout': out[-1500:], 'stderr': p.stderr[-500:]}
+
+
+def put_xdev_battery(repo, mode='move'):
+    """cross-device trash-put natively (pyvc/xdev_inner.py under `unshare -m`
+    with two tmpfs volumes, home fallback enabled): mode 'move' checks that
+    every entry kind arrives in the home trash with bytes, tree, link targets,
+    modes and mtimes intact and the targets untouched (C01, C09, C18);
+    mode 'kill' kills the run before every mutating operation of the
+    copy+delete and checks C05's state predicate."""
+    import subprocess, json
+    inner = os.path.join(os.path.dirname(os.path.dirname(os.path.abspath(__file__))),
+                         'pyvc', 'xdev_inner.py')
+    try:
+        p = subprocess.run(['unshare', '-m', '/venv/bin/python', inner, repo, mode],
+                           capture_output=True, text=True, timeout=900)
+    except Exception as e:
+        return {'confirmed': False, 'note': 'unshare failed: %r' % (e,)}
+    for l in p.stdout.split('\n'):
+        if l.startswith('XDEV-RESULT '):
+            r = json.loads(l[len('XDEV-RESULT '):])
+            r['confirmed'] = bool(r['problems'])
+            r['what'] = 'cross-device trash-put (%s)' % mode
+            return r
+    return {'confirmed': False, 'note': 'no result: %s' % p.stderr[-400:]}
+
+
+def merge_batteries(*results):
+    out = {'confirmed': False, 'problems': [], 'parts': []}
+    for r in results:
+        out['confirmed'] = out['confirmed'] or bool(r.get('confirmed'))
+        out['problems'] += list(r.get('problems') or [])
+        out['parts'].append(dict((k, v) for k, v in r.items()
+                                 if k not in ('problems', 'stdout', 'stderr')))
+    out['problems'] = out['problems'][:12]
+    return out
